@@ -100,21 +100,24 @@ Lemma trash_walk xs : forall s E P rest (Q : fs -> Prop),
 Proof.
   induction xs as [|x xs IH]; intros s E P rest Q Hg Hnl Hp.
   - cbn [map app]. apply Hp; [exact Hg|reflexivity|reflexivity].
-  - cbn [map app]. apply walk_retire_cons; [now apply good_safe|].
-    unfold exec_or. destruct (exec (CRename (NSst x) (NTrashSst x)) s) as [s1|] eqn:E1.
-    + apply exec_rename_inv in E1. destruct E1 as (f1 & L1 & ->).
-      set (s1 := set (NTrashSst x) f1 (remove (NSst x) s)).
-      assert (Hu : upd_rel s s1 (NSst x) None).
-      { intros m Hm. unfold s1. rewrite lookup_set, lookup_remove.
-        destruct (name_eqb m (NTrashSst x)) eqn:En; [apply name_eqb_eq in En; subst m; discriminate|reflexivity]. }
-      assert (Hw1 : wf s1) by (unfold s1; apply wf_set, wf_remove, Hg).
-      assert (Hg1 : Good s1 E) by (apply (good_remove_sst s s1 x E Hw1 Hu); [apply Hnl; now left|exact Hg]).
-      assert (Hstrs1 : mani_strs s1 = mani_strs s) by (apply (upd_rel_strs _ _ _ _ Hu); discriminate).
-      apply (IH s1 E P rest Q Hg1).
-      * intros y Hy. rewrite Hstrs1. apply Hnl. now right.
-      * intros s' Hg' Hs' Hl'. apply Hp; [exact Hg'|congruence|].
-        intros n Hn Hr. rewrite Hl' by assumption. apply (upd_rel_other _ _ _ _ n Hu Hr). apply Hn.
-    + apply (IH s E P rest Q Hg); [intros y Hy; apply Hnl; now right|exact Hp].
+  - cbn [map app].
+    (* the rename is skipped (it fails by itself or by injection) *)
+    assert (Hskip : walk (map (fun x => (CRename (NSst x) (NTrashSst x), Retire)) xs ++ rest) s E P Q)
+      by (apply (IH s E P rest Q Hg); [intros y Hy; apply Hnl; now right|exact Hp]).
+    apply walk_retire_cons; [now apply good_safe| |exact (proj1 Hskip)].
+    unfold exec_or. destruct (exec (CRename (NSst x) (NTrashSst x)) s) as [s1|] eqn:E1; [|exact Hskip].
+    apply exec_rename_inv in E1. destruct E1 as (f1 & L1 & ->).
+    set (s1 := set (NTrashSst x) f1 (remove (NSst x) s)).
+    assert (Hu : upd_rel s s1 (NSst x) None).
+    { intros m Hm. unfold s1. rewrite lookup_set, lookup_remove.
+      destruct (name_eqb m (NTrashSst x)) eqn:En; [apply name_eqb_eq in En; subst m; discriminate|reflexivity]. }
+    assert (Hw1 : wf s1) by (unfold s1; apply wf_set, wf_remove, Hg).
+    assert (Hg1 : Good s1 E) by (apply (good_remove_sst s s1 x E Hw1 Hu); [apply Hnl; now left|exact Hg]).
+    assert (Hstrs1 : mani_strs s1 = mani_strs s) by (apply (upd_rel_strs _ _ _ _ Hu); discriminate).
+    apply (IH s1 E P rest Q Hg1).
+    + intros y Hy. rewrite Hstrs1. apply Hnl. now right.
+    + intros s' Hg' Hs' Hl'. apply Hp; [exact Hg'|congruence|].
+      intros n Hn Hr. rewrite Hl' by assumption. apply (upd_rel_other _ _ _ _ n Hu Hr). apply Hn.
 Qed.
 
 Lemma if_must (b : bool) (cs : list call) : (if b then must cs else []) = must (if b then cs else []).
@@ -145,7 +148,7 @@ Proof.
     apply Forall_forall. intros c Hc. apply in_map_iff in Hc. destruct Hc as (ix & <- & _). intros n [<-|[]]. reflexivity. }
   (* A and B: the left-over directory, the fresh directory *)
   rewrite if_must. rewrite app_assoc, <- must_app.
-  apply walk_app_nodefer; [apply no_defer_must|].
+  apply walk_app_must.
   eapply walk_conseq; [|apply walk_irrelevant; [|exact Hg]].
   2:{ apply Forall_app. split; [|repeat constructor; intros n [<-|[]]; reflexivity].
       destruct (exists_name (NCompDir ins) s); [|constructor].
@@ -157,7 +160,7 @@ Proof.
   (* C: the outputs *)
   change (flat_map (fun ix : nat * sname => [CCreate (NComp ins (fst ix)); CWrite (NComp ins (fst ix)) (CkSst (snd ix)); CSync (NComp ins (fst ix))]) eo)
     with (flat_map (out_calls ins) eo).
-  apply walk_app_nodefer; [apply no_defer_must|].
+  apply walk_app_must.
   eapply walk_conseq; [|apply (outputs_walk ins eo 0%nat s2 E None Hg2); [intros; lia|apply enumerate_nodup]].
   cbn beta. intros s3 (Hg3 & Hsrc3 & Ho3).
   assert (Hrel3 : forall n, relevant n = true -> lookup n s3 = lookup n s).
@@ -171,7 +174,13 @@ Proof.
   { intros n. rewrite Ho4 by discriminate. now apply Hrel3. }
   (* E: the manifest edit *)
   cbn [app].
-  apply (mani_block_k _ _ _ outs ins _ s4 E E None); [exact Hg4| | |now left|].
+  apply (mani_block_defer outs ins _ s4 E E None); [|exact Hg4| | |now left|].
+  { assert (Hr : cleanup_like (map (fun x => (CRename (NSst x) (NTrashSst x), Retire)) rl))
+      by (apply Forall_forall; intros cm Hcm; apply in_map_iff in Hcm; destruct Hcm as (x & <- & _); now left).
+    assert (Hc : cleanup_like (must (map (fun ix : nat * sname => CUnlink (NComp ins (fst ix))) eo ++ [CRmdir (NCompDir ins)]))).
+    { apply Forall_forall. intros cm Hcm. unfold must in Hcm. apply in_map_iff in Hcm. destruct Hcm as (c & <- & Hc).
+      right. split; [reflexivity|]. rewrite Forall_forall in Hclean. now apply Hclean. }
+    destruct gc; apply Forall_app; auto. }
   { intros x Hx. destruct (enumerate_in outs 0%nat x Hx) as (i & Hi). apply (Hall4 i x Hi). }
   { intros e. destruct Hg4 as [_ (_ & _ & _ & C)]. rewrite (C e), Hstrs4. split.
     - intros [(y & Hy & He)|H]; [|now right]. left.
@@ -193,14 +202,14 @@ Proof.
   - (* garbage collection: the inputs are retired inside install_version, then the clean-up *)
     apply trash_walk; [exact Hg7|exact Hret|].
     intros s8 Hg8 Hstrs8 Ho8.
-    rewrite <- (app_nil_r (must _)). apply walk_app_nodefer; [apply no_defer_must|].
+    rewrite <- (app_nil_r (must _)). apply walk_app_must.
     eapply walk_conseq; [|apply walk_irrelevant; [exact Hclean|exact Hg8]].
     cbn beta. intros s9 (_ & Hg9 & Hsame9).
     apply walk_nil; [now apply good_safe|]. apply Hfinal; [exact Hg9| |].
     + rewrite (same_rel_strs _ _ Hsame9), Hstrs8, Hstrs7, Hstrs4. reflexivity.
     + intros n. rewrite (Hsame9 (NLog n) eq_refl), Ho8 by (try discriminate; reflexivity). apply Hlog7.
   - (* merge: the clean-up first; the snapshot held for the split hints retires the inputs last *)
-    apply walk_app_nodefer; [apply no_defer_must|].
+    apply walk_app_must.
     eapply walk_conseq; [|apply walk_irrelevant; [exact Hclean|exact Hg7]].
     cbn beta. intros s8 (_ & Hg8 & Hsame8).
     rewrite <- (app_nil_r (map _ rl)).
